@@ -26,7 +26,12 @@ pub struct Parser {
     index: usize,
     roots_parsed: bool,
     where_parsed: bool,
+    /// Current nesting of brackets and function calls (the parser and the evaluator recurse once per level)
+    nesting: u32,
 }
+
+/// Deeper nesting than this is rejected instead of overflowing the stack
+const MAX_NESTING: u32 = 500;
 
 impl Parser {
     pub fn new() -> Parser {
@@ -35,6 +40,7 @@ impl Parser {
             index: 0,
             roots_parsed: false,
             where_parsed: false,
+            nesting: 0,
         }
     }
 
@@ -707,10 +713,20 @@ impl Parser {
         }
     }
 
+    fn nest(&mut self) -> Result<(), String> {
+        self.nesting += 1;
+        match self.nesting > MAX_NESTING {
+            true => Err("Expression is nested too deeply".to_string()),
+            false => Ok(()),
+        }
+    }
+
     fn parse_paren(&mut self) -> Result<Option<Expr>, String> {
         match self.next_lexem() {
             Some(Lexem::Open) => {
+                self.nest()?;
                 let result = self.parse_expr();
+                self.nesting -= 1;
                 if let Some(Lexem::Close) = self.next_lexem() {
                     result
                 } else {
@@ -718,7 +734,9 @@ impl Parser {
                 }
             }
             Some(Lexem::CurlyOpen) => {
+                self.nest()?;
                 let result = self.parse_expr();
+                self.nesting -= 1;
                 if let Some(Lexem::CurlyClose) = self.next_lexem() {
                     result
                 } else {
@@ -820,6 +838,8 @@ impl Parser {
             None => return Err("Error in function expression".to_string()),
         }
 
+        self.nest()?;
+
         // an error in the first argument is an error of the query, like one in any other argument
         match self.parse_expr() {
             Ok(Some(function_arg)) => function_expr.left = Some(Box::from(function_arg)),
@@ -841,6 +861,7 @@ impl Parser {
                     if (lexem == Lexem::Close && !curly_mode)
                         || (lexem == Lexem::CurlyClose && curly_mode) =>
                 {
+                    self.nesting -= 1;
                     function_expr.args = Some(args);
                     return Ok(function_expr);
                 }
